@@ -155,7 +155,9 @@ type c49Node struct {
 	inReload    atomic.Int32
 	sent        atomic.Int64
 	checked     bool
-	dev         *c49Tun // nil when the node runs nebula's own disabled tun
+	paused      atomic.Bool   // the underlay does not take this node's udp output for now (a send buffer that is full)
+	wake        chan struct{} // kicks the pump after paused changed
+	dev         *c49Tun       // nil when the node runs nebula's own disabled tun
 	disabledTun bool
 }
 
@@ -261,7 +263,7 @@ func (n *c49Node) do(f func()) {
 // add builds a node with nebula.Main under the node's label and starts its pump. The node is not started.
 func (w *c49World) add(name, role, nets, addr string, over m) *c49Node {
 	id := w.ca.issue([]cert.Version{cert.Version2}, name, nets, "", []string{role})
-	n := &c49Node{w: w, label: w.tag + "/" + name, role: role}
+	n := &c49Node{w: w, label: w.tag + "/" + name, role: role, wake: make(chan struct{}, 1)}
 	ap := netip.MustParseAddrPort(addr)
 	mc := vnBaseConfig(id, []*vnCA{w.ca}, ap)
 	if over != nil {
@@ -315,10 +317,15 @@ func (w *c49World) pump(n *c49Node) {
 		ttx = n.dev.tx
 	}
 	for {
+		u := utx
+		if n.paused.Load() {
+			u = nil
+		}
 		select {
 		case <-w.stopPumps:
 			return
-		case p := <-utx:
+		case <-n.wake:
+		case p := <-u:
 			w.route(n, p)
 		case <-ttx:
 			n.tunOut.Add(1)
@@ -360,6 +367,32 @@ func (w *c49World) deliver(dst *c49Node, p *udp.Packet) {
 		p.Release() // receiver queue full: the network drops
 		w.udpDropped.Add(1)
 	}
+}
+
+// slowUnderlay(true) stops taking the node's udp output: its writers park once the (ten-slot) socket queue is full, like
+// on a blocking socket whose send buffer does not drain. slowUnderlay(false) lets it drain again.
+func (n *c49Node) slowUnderlay(on bool) {
+	n.paused.Store(on)
+	select {
+	case n.wake <- struct{}{}:
+	default:
+	}
+}
+
+// parkedIn counts the node's goroutines (by entry function) that have fn on their stack.
+func (n *c49Node) parkedIn(fn string) map[string]int {
+	out := map[string]int{}
+	_, groups := c49Alive(n.label, false)
+	for _, g := range groups {
+		for _, f := range g.Funcs {
+			if strings.HasSuffix(f, fn) {
+				s := g.sig()
+				out[s[strings.Index(s, "<-")+2:]] += g.N
+				break
+			}
+		}
+	}
+	return out
 }
 
 func (w *c49World) setPolicy(f func(from *c49Node, h *header.H, hok bool, p *udp.Packet) int) {
@@ -1373,6 +1406,72 @@ func c49Cases() []c49Case {
 				}
 				w.stop(p, class, o)
 				w.finish("lighthouse-queries-queued")
+			})
+		}
+	}
+
+	// (g') stop while routines are parked on internal queues: the underlay is slow (the node's udp output is not taken for a
+	// while), the single lighthouse query worker parks in its udp write, the query queue fills, and the tun reader (and,
+	// given time, the handshake manager) park in QueryServer waiting for room BEFORE the stop request lands. The underlay
+	// drains again two virtual seconds after the stop request (Stop itself writes close messages to the same socket), or,
+	// in the third phase, at the very instant of the request.
+	// Whether a parked caller survives a broken wake-up depends on what the leaving worker happens to take from the queue
+	// on its way out, so every point of this family is visited three times per repetition.
+	for _, qb := range []int{64, 2, 0, 64, 2, 0, 64, 2, 0} {
+		for _, ph := range []string{"tun-reader-parked", "tun-reader-and-handshake-manager-parked", "lighthouse-tunnel-dropped-locally-underlay-stays-slow", "parked-then-underlay-drains-with-stop"} {
+			add("parked-on-query-queue", fmt.Sprintf("query-buffer-%d/%s", qb, ph), func(w *c49World, class string) {
+				l, peers := w.mesh(2, m{"handshakes": m{"query_buffer": qb}}, true)
+				p := peers[1]
+				w.advanceUntil(100*time.Millisecond, 50, func() bool { return p.hasTunnel(l.Ident.Addr()) })
+				p.slowUnderlay(true)
+				synctest.Wait()
+				w.genWg.Add(1)
+				go func() {
+					defer w.genWg.Done()
+					for i := 0; i < qb+60; i++ {
+						pkt, _ := vnUDP4(p.Ident.Addr(), netip.AddrFrom4([4]byte{10, 1, byte(5 + i/200), byte(1 + i%200)}), 2000, 80, i%100)
+						if !p.tunSend(pkt) {
+							return
+						}
+					}
+				}()
+				synctest.Wait()
+				if ph != "tun-reader-parked" && ph != "parked-then-underlay-drains-with-stop" {
+					// the handshake manager re-queries a destination on its fifth attempt
+					time.Sleep(time.Duration(1600+w.rng.IntN(1500)) * time.Millisecond)
+					synctest.Wait()
+				}
+				worker := p.parkedIn("udp.(*TesterConn).WriteTo")
+				parked := p.parkedIn("nebula.(*LightHouse).QueryServer")
+				nParked := 0
+				for entry, k := range parked {
+					nParked += k
+					switch {
+					case strings.Contains(entry, "run.func2"):
+						w.r.Count("phase.parked-on-query-queue.tun-reader-parked-in-QueryServer", 1)
+					case strings.Contains(entry, "HandshakeManager"):
+						w.r.Count("phase.parked-on-query-queue.handshake-manager-parked-in-QueryServer", 1)
+					default:
+						w.r.Count("phase.parked-on-query-queue.other-routine-parked-in-QueryServer", 1)
+					}
+				}
+				if worker["nebula.(*LightHouse).startQueryWorker.func1"] > 0 && nParked > 0 && len(p.F.lightHouse.queryChan) == qb {
+					w.r.Count("phase.parked-on-query-queue.worker-on-the-wire-queue-full-callers-parked", 1)
+				}
+				o := c49Opts(w)
+				o.noBurst = true
+				switch ph {
+				case "parked-then-underlay-drains-with-stop":
+					o.preStop = func() { p.slowUnderlay(false) }
+				case "lighthouse-tunnel-dropped-locally-underlay-stays-slow":
+					// with no tunnel left Stop has nothing to write, so the socket may stay stuck until the node is down
+					p.do(func() { p.C.CloseTunnel(l.Ident.Addr(), true) })
+					o.lateWork = func() { p.slowUnderlay(false); synctest.Wait() }
+				default:
+					o.preStop = func() { time.AfterFunc(2*time.Second, func() { p.slowUnderlay(false) }) }
+				}
+				w.stop(p, class, o)
+				w.finish("parked-on-query-queue")
 			})
 		}
 	}
